@@ -535,7 +535,7 @@ pub fn run(run: &'static Run) {
          compared with the transcription of git's dowild(). One case = one pattern (3124 triples). Sub-check classes: [[:c:]], [![:c:]], [^[:c:]] for the 12 POSIX \
          classes (+ one unknown name) x every single-byte text 0x01..0xff x 4 modes, each also bound to git. Sub-check brackets: `[` + {none,!,^} + every sequence of \
          <=4 (quick) / <=5 (thorough) members over {a,m,z,-,],\\],[:digit:],[:alpha:],[:upper:],0,A} (for <=4 members additionally `[:` = malformed class opener and `*`) + `]` x every single-byte text 0x01..0xff and 10 longer texts x 4 modes \
-         (transcription bound to git for <=3 / <=4 members by git-bind-brackets). non-trivial = the pattern contains a glob \
+         (transcription bound to git by git-bind-brackets: quick <=3 members of the base alphabet, thorough <=4 members incl. `[:` and `*`). non-trivial = the pattern contains a glob \
          special and, in some mode, matches at least one text and rejects at least one",
     );
     run.assume("oracle = Rust transcription of wildmatch.c:dowild() of git 2.39.5; bound to the git binary by sub-check git-bind");
@@ -787,6 +787,7 @@ pub fn run(run: &'static Run) {
             ok(f.join("+"))
         },
     );
+    run.cov("wall_brackets_s", t2.elapsed().as_secs_f64());
     // bind the transcription to git for bracket expressions
     let bracket_fixture = vkit::scratch::Dir::new("c36brk");
     let mut bracket_names: Vec<Vec<u8>> = Vec::new();
@@ -816,7 +817,8 @@ pub fn run(run: &'static Run) {
         |emit| {
             let mut batch = Vec::new();
             for negation in ["", "!", "^"] {
-                enumerate::seqs(&MEMBERS_EXT, 0, bind_members, |m| {
+                let alphabet: &[&str] = if run.quick() { &MEMBERS } else { &MEMBERS_EXT };
+                enumerate::seqs(alphabet, 0, bind_members, |m| {
                     let p = format!("[{negation}{}]", m.concat()).into_bytes();
                     for mode in 0..4u8 {
                         batch.push(BindSpec { pattern: B(p.clone()), glob: mode & 1 != 0, icase: mode & 2 != 0 });
@@ -833,7 +835,7 @@ pub fn run(run: &'static Run) {
         |c: &BindCase| bind_eval(bracket_fixture.path(), &bracket_names, c),
     );
     drop(bracket_fixture);
-    run.cov("wall_brackets_s", t2.elapsed().as_secs_f64());
+    run.cov("wall_brackets_incl_bind_s", t2.elapsed().as_secs_f64());
 
     // ---- gitoxide vs transcription ----
     let max_tokens = run.pick(4, 5);
